@@ -191,7 +191,8 @@ def h_window(e, cfg):
     e.tag(cls=cls, refrac_zero=(refrac_t == 0), lock=lock)
     plant(e, n, cls, shape, B, refrac_t)
     k = max(1, math.ceil(refrac_t / dt))
-    I0 = e.sym((B, *shape), torch.float32, "I0", lo=-500, hi=500)
+    imax = cfg.get("imax", 500)
+    I0 = e.sym((B, *shape), torch.float32, "I0", lo=-imax, hi=imax)
     s0 = e.read(n(I0, refrac_lock=lock))
     v0 = e.read(n.voltage)
     hp_reset = None if cls == "GLIF2" else K(hp["reset_v"])
@@ -268,14 +269,27 @@ def checks(tier):
             for lock in (True, False):
                 win.append(dict(cls=cls, dt=dt, refrac_t=rt, shape=(2,), B=(2 if th else 1), lock=lock))
     ker = [dict(kernel=k) for k in ("linear", "quadratic", "exponential")]
+    # bit-exact float32 mode (symtorch/fp.py): the claims the statement makes exactly - reset to exactly the documented voltage, no spike and an
+    # unchanged (locked) voltage inside the window, refrac never negative - over IEEE float32 inputs, including huge drives for the linear models
+    fpw = []
+    for cls in ("LIF", "ALIF", "GLIF1", "GLIF2", "QIF", "Izhikevich"):       # EIF / AdEx integrate through exp(): not modelled bit-exactly
+        for (dt, rt) in ((1.0, 2.0), (0.1, 0.3)) + (((1.3, 2.0), (1.0, 0.0), (1.0, 2.5), (0.5, 1.3)) if th else ()):
+            for lock in (True, False):
+                if not th and ((dt, rt) != (1.0, 2.0) and (not lock or cls in ("QIF", "Izhikevich"))):
+                    continue
+                fpw.append(dict(cls=cls, dt=dt, refrac_t=rt, shape=((2,) if th else (1,)), B=1, lock=lock))
+        if cls in ("LIF", "ALIF", "GLIF1"):
+            fpw.append(dict(cls=cls, dt=1.0, refrac_t=2.0, shape=(1,), B=1, lock=True, imax=1e12))
     return [Check("step", h_step, step, timeout_s=600), Check("window", h_window, win, timeout_s=600),
-            Check("kernels", h_kernels, ker, timeout_s=600)]
+            Check("kernels", h_kernels, ker, timeout_s=600), Check("window_fp32", h_window, fpw, opts={"fp32": True, "query_timeout_ms": 120000}, timeout_s=900)]
 
 
 BOUNDS = {
     "quick": {"classes": 8, "(dt, refrac_t)": "[(1,0),(1,1),(1,2),(1,2.5),(0.1,0.3),(1.3,2),(0.5,0.2)]", "shape": "(2,)", "batch": [1, 2], "refrac_lock": [True, False],
-              "adaptation": ["on", "off", "None+train", "None+eval"], "hyper-parameter sets": 1, "steps": "1 from an arbitrary state + refractory window ceil(refrac_t/dt)-1 steps"},
+              "adaptation": ["on", "off", "None+train", "None+eval"], "hyper-parameter sets": 1, "steps": "1 from an arbitrary state + refractory window ceil(refrac_t/dt)-1 steps",
+              "window_fp32": "the window obligations again over IEEE float32 variables (bit-exact, round-to-nearest-even) for the 6 classes without exp(); drives up to 1e12 for LIF/ALIF/GLIF1"},
     "thorough": {"classes": 8, "(dt, refrac_t)": "as quick", "shape": ["(2,)", "(2,2)"], "batch": [1, 2], "refrac_lock": [True, False], "adaptation": "all", "hyper-parameter sets": 2},
 }
-OUTSIDE = ["float32 residue of repeated refrac - dt (refrac arithmetic is exact over float32 constants)", "inputs/voltages beyond +-500/+-200", "NaN or infinite inputs"]
+OUTSIDE = ["float32 rounding in the step-equation check (exact reals there; the window check also runs bit-exactly in float32)", "inputs/voltages beyond +-500/+-200 (1e12 for the linear models in float32 mode)",
+           "NaN or infinite inputs", "EIF / AdEx in float32 mode (exp of a symbolic float is not modelled)"]
 ASSUMPTIONS = ["state invariant 0 <= refrac <= refrac_t (checked inductive by obligation step:refrac-invariant)"]
